@@ -19,6 +19,8 @@ _marshalled_length / _unmarshalled_length) in both encodings, from the IR of the
   reject:<kind>:<enc>[:l:sig]      (d) unmarshal on a correctly framed buffer whose element bytes are arbitrary: decode of every element is a free
         Boolean; on every path unmarshal returns true iff every decode on the path returned true, and the accepting path decodes exactly
         the number of elements of the shape
+  fq12-io:roundtrip   the 576-byte token used above is justified by running the REAL Fq12/Fq6/Fq2::write/read_big_endian over 48-byte Fq tokens:
+        write puts each of the 12 coefficients exactly once into 12 x 48 bytes (injective given Fq::write_big_endian, C02), read(write(a)) = a
 Alignment of the accesses is C17's business: C15 runs with alignment findings recorded, not fatal.
 """
 import sys
@@ -254,35 +256,40 @@ def ob_reject(kname, comp, l, sig):
 
 
 def register(chk):
+    def add(name, fn, *args):
+        chk.add(name, marsh.guarded, name, fn, *args)
     lmax = 3 if chk.tier == "quick" else 6
+    add("fq12-io:roundtrip", marsh.fq12_io, TAG, False)
     for kind in KINDS:
         for comp in marsh.forms(kind):
             if kind.var:
-                chk.add("length:%s:%s" % (kind.name, fname(comp)), ob_lengths, kind.name, comp)
+                add("length:%s:%s" % (kind.name, fname(comp)), ob_lengths, kind.name, comp)
             for l in (range(lmax + 1) if kind.var else (0,)):
                 for sig in ((0, 1) if kind.var else (0,)):
                     sfx = shape_suffix(kind, l, sig)
-                    chk.add("roundtrip:%s:%s%s" % (kind.name, fname(comp), sfx), ob_roundtrip, kind.name, comp, l, sig)
+                    add("roundtrip:%s:%s%s" % (kind.name, fname(comp), sfx), ob_roundtrip, kind.name, comp, l, sig)
                     if kind.ndec(l, sig):
-                        chk.add("reject:%s:%s%s" % (kind.name, fname(comp), sfx), ob_reject, kind.name, comp, l, sig)
+                        add("reject:%s:%s%s" % (kind.name, fname(comp), sfx), ob_reject, kind.name, comp, l, sig)
     return lmax
 
 
 def main(argv=None):
     chk = Check("C15", "proof", argv)
     marsh.prog(TAG)
+    marsh.prog(TAG + "_tower", marsh.TOWER_FILES)
     lmax = register(chk)
     chk.explanation = __doc__.strip()
     chk.bounds = ["slot counts l = 0..%d x signatures on/off x {compressed, uncompressed} for round trip, write set and rejection (loops unrolled, no loop cut)" % lmax,
                   "length functions: all l in [0, 2^31-2] (beyond that marshalled_length(l, true) overflows int), all 64-bit lengths for 'complete'/'mismatch', "
                   "lengths <= 2^32 for 'sound' (for lengths beyond 2^31 slots the int truncation in unmarshalled_length is outside the claim), every first byte",
                   "free-slot index: all 2^32 values; LQ-IBE master scalar: all 2^256 byte strings"]
-    chk.trusted = ["contract of Encoding::encode/decode (C09: writes/reads exactly Encoding::size bytes, decode(encode(P)) = (true, P), encode injective) and of "
-                   "Fq12::write/read_big_endian (C04) as stated in checks/marsh.py; from_projective/from_affine are the identity on group elements (C05); "
-                   "pairing is a function of its two arguments (C01)", "group-element equality is syntactic equality of formal symbols (ground comparison, no solver)",
-                   "clang -O1 IR of the current tree, E-IR, z3"]
+    chk.trusted = ["contract of Encoding::encode/decode (C09: writes/reads exactly Encoding::size bytes, decode(encode(P)) = (true, P), encode injective) as stated in "
+                   "checks/marsh.py; Fq::write/read_big_endian write/read exactly 48 bytes, injective, read(write(v)) = v (C02) - the Fq12 level above it is run for real in "
+                   "fq12-io:roundtrip; from_projective/from_affine are the identity on group elements (C05); pairing is a function of its two arguments (C01)",
+                   "group-element equality is syntactic equality of formal symbols (ground comparison, no solver)", "clang -O1 IR of the current tree, E-IR, z3"]
     chk.assumptions = ["compressed Params: the object satisfies setup's post-condition pairing = e(g2, g1)",
-                       "the bytes produced by Encoding::encode are opaque: C15 does not look inside them (C09 does)"]
+                       "the bytes produced by Encoding::encode are opaque: C15 does not look inside them (C09 does)",
+                       "out of scope: the Go-side marshalling in lang/go/*/marshal.go (no Go toolchain); alignment of the buffer accesses (C17)"]
     chk.rule = ("one evaluation = one obligation; length:* are solver queries over symbolic l / length / first byte; roundtrip:* combine A-MEM bounds checks, solver queries "
                 "on the index bytes, slot count and flags, and ground comparisons of formal group elements; reject:* are propositional queries over the decode results")
     chk.run()
